@@ -69,6 +69,12 @@ DynObs == UNION {{Ob(1, "dynamic", "car", t0, sh, St("initial", t0, p0[1], p0[2]
 StaObs == {Ob(1, "static", "parkedVehicle", t0, sh, St("initial", t0, p0[1], p0[2], q0), [k |-> "none"]) :
                t0 \in T0s, p0 \in P0s, q0 \in 0..3, sh \in FreeShapes}
           \cup {Ob(1, "static", "parkedVehicle", t0, ShTrain, St("initial", t0, p0[1], p0[2], 0), [k |-> "none"]) : t0 \in T0s, p0 \in P0s}
+OvTG == {<<1, -1>>, <<1, -2>>, <<2, -1>>, <<2, -2>>, <<2, -3>>}       \* <<t0, negative gap>>: first prediction step t0+1+g >= 0
+OvlObs ==          \* constructed with a prediction that overlaps the initial time step / starts before it
+    UNION {{Ob(1, "dynamic", "car", tg[1], sh, St("initial", tg[1], 1, 2, 1), pr) :
+               pr \in {PTraj(tg[2], TrajOf(kind, tg[1], tg[2], n, <<1, 2>>, 1, M2)) : kind \in {"oriented", "pm"}, n \in 1..3}
+                      \cup {PSet(tg[2], OccsOf(1, tg[1], tg[2], n, <<1, 2>>, 1, M2)) : n \in 1..2}} :
+           tg \in OvTG, sh \in {ShRect31, ShTri}}
 PhaObs == {Phantom(1, t0, [k |-> "none"]) : t0 \in T0s}
           \cup {Phantom(1, t0, PSet(g, OccsOf(f, t0, g, n, p0, q0, M2))) :
                    t0 \in T0s, g \in {0} \cup Gaps, p0 \in P0s, q0 \in {0, 1}, f \in {1, 2}, n \in 1..2}
@@ -98,7 +104,7 @@ UncObs ==
              PTraj(2, <<USt("oriented", 4, 2, 2, u.q1, u), St("oriented", 5, 3, 2, 1)>>)) :
              sh \in {ShRect31, ShTri}, u \in UncSpecs}
 
-ObDescs == DynObs \cup StaObs \cup PhaObs \cup EnvObs \cup UncObs
+ObDescs == DynObs \cup StaObs \cup PhaObs \cup EnvObs \cup UncObs \cup OvlObs
 
 (* ---- scenarios: subsets of a reduced descriptor set (distinct ids), with the query families ---------- *)
 Red(i) ==
@@ -114,7 +120,9 @@ Red(i) ==
                      PTraj(0, TrajOf("pm", 0, 0, 3, <<5, 5>>, 1, M1)))
       [] i = 9 -> Ob(9, "dynamic", "car", 0, ShRect31, St("initial", 0, 1, 0, 0),       \* gap 2: known at 0, predicted for 3..4
                      PTraj(2, TrajOf("custom", 0, 2, 2, <<1, 0>>, 0, M1)))
-RedIds == 1..9
+      [] i = 10 -> Ob(10, "dynamic", "truck", 2, ShRect31, St("initial", 2, 2, 2, 1),   \* overlap: known at 2, prediction 1..3
+                      PTraj(-2, TrajOf("oriented", 2, -2, 3, <<0, 0>>, 0, M1)))
+RedIds == 1..10
 MaxSc  == IF Scale = 1 THEN 3 ELSE 4
 RECURSIVE SortedSeq(_)
 SortedSeq(I) == IF I = {} THEN <<>> ELSE LET m == CHOOSE x \in I : \A y \in I : x <= y IN <<m>> \o SortedSeq(I \ {m})
@@ -160,6 +168,9 @@ InitMods(ob) ==      \* the obstacle is advanced / its primary data are assigned
              adv == St("initial", t1, 4, -1, 2)                                        \* new pose, time step t0 + 1
          IN {[k |-> "update_initial_state", id |-> 1, state |-> adv, pred |-> pr] :
                 pr \in {[k |-> "none"], PTraj(1, TrajOf(kind, t1, 1, 2, <<4, -1>>, 2, M1)), PSet(0, OccsOf(1, t1, 0, 2, <<4, -1>>, 2, M2))}}
+            \cup (IF ob.pred.k = "none" THEN {}                    \* the OLD prediction is re-attached: it now overlaps the new
+                  ELSE {[k |-> "update_initial_state", id |-> 1, state |-> St("initial", ob.t0 + d, 4, -1, 2),    \* initial step
+                         pred |-> ob.pred, reuse |-> 1] : d \in {1, 2}})
             \cup {[k |-> "set_initial_state", id |-> 1, state |-> St("initial", ob.t0, 4, -1, 2)]}
             \cup (IF PredGap(ob) > 0 THEN {[k |-> "set_initial_state", id |-> 1, state |-> adv]} ELSE {})
             \cup {[k |-> "set_prediction", id |-> 1, pred |-> pr] :
@@ -184,11 +195,13 @@ LawSourceTotal  == mode = "ob" => ((Sources(o, t) # {}) <=> InHorizon(o, t))    
 LawHorizon ==                                               \* horizon = {t0} union [t0 + 1 + g, t0 + g + len]
     mode = "ob" /\ o.role = "dynamic" =>
         LET g == PredGap(o)  n == PredLen(o)
-        IN /\ (Occ(o, t).k # "None") <=> (t = o.t0 \/ (o.t0 + 1 + g <= t /\ t <= o.t0 + g + n))
-           /\ Source(o, o.t0).k = "Initial"
-           /\ (n > 0 => /\ Source(o, o.t0 + g + 1).k \in {"Traj", "SetOcc"} /\ Source(o, o.t0 + g + 1).i = 1
-                         /\ Source(o, o.t0 + g + n).k \in {"Traj", "SetOcc"} /\ Source(o, o.t0 + g + n).i = n
-                         /\ Source(o, o.t0 + g + n + 1).k = "None")
+        IN /\ (Occ(o, t).k # "None") <=> (t = o.t0 \/ (t > o.t0 /\ o.t0 + 1 + g <= t /\ t <= o.t0 + g + n))
+           /\ Source(o, o.t0).k = "Initial" /\ StateAt(o, o.t0) = o.init            \* also when the prediction overlaps t0
+           /\ (t < o.t0 => Source(o, t).k = "None" /\ StateAt(o, t) = NoneV)        \* nothing before the initial time step
+           /\ (n > 0 /\ g >= 0 => /\ Source(o, o.t0 + g + 1).k \in {"Traj", "SetOcc"} /\ Source(o, o.t0 + g + 1).i = 1
+                                   /\ Source(o, o.t0 + g + n).k \in {"Traj", "SetOcc"} /\ Source(o, o.t0 + g + n).i = n)
+           /\ (n > 0 /\ g < 0 /\ g + n >= 1 => Source(o, o.t0 + 1).k \in {"Traj", "SetOcc"} /\ Source(o, o.t0 + 1).i = 1 - g)
+           /\ (n > 0 /\ o.t0 + g + n + 1 > o.t0 => Source(o, o.t0 + g + n + 1).k = "None")
 LawGap ==                                                   \* inside the gap: no state, no occupancy, no position
     mode = "ob" /\ InGap(o, t) =>
         /\ PredGap(o) > 0 /\ ~InHorizon(o, t)
@@ -273,7 +286,8 @@ LawModify ==
               /\ (md.k \in {"update_initial_state", "set_initial_state"} /\ Targets(a, md) =>  \* the NEW initial state is the one placed
                      /\ b.t0 = md.state.t /\ Source(b, b.t0).k = "Initial" /\ StateAt(b, b.t0) = md.state
                      /\ Occ(b, b.t0) = Placed(a.shape, PoseOf(md.state))
-                     /\ PredGap(b) >= 0
+                     /\ ("reuse" \in DOMAIN md \/ PredGap(b) >= 0)
+                     /\ ("reuse" \in DOMAIN md => PredGap(b) = PredGap(a) - (b.t0 - a.t0) /\ (PredGap(a) = 0 => Overlaps(b)))
                      /\ (b.t0 > a.t0 => Occ(b, a.t0) = NoneV /\ StateAt(b, a.t0) = NoneV)        \* the old initial step left the horizon
                      /\ (md.k = "update_initial_state" /\ md.pred.k = "none" => (Occ(b, t).k # "None" <=> t = b.t0)))
               /\ (md.k \in {"set_trajectory", "set_shape", "update_prediction", "set_prediction"} /\ Targets(a, md) =>
